@@ -67,8 +67,10 @@ pub fn run_history<C: Checker>(
                 out.count(&format!("op/{}/{}", step.rop.name(), if step.ok() { "ok" } else { "err" }), 1);
             }
             if let Err(e) = &step.res {
-                if e.contains("PANIC") {
+                if let Some(i) = e.find("PANIC") {
                     out.count("contract_panics", 1);
+                    let msg: String = e[i..].chars().take(70).collect();
+                    out.count(&format!("contract_panic/{}/{}", step.rop.name(), msg), 1);
                 }
             }
             {
